@@ -22,8 +22,16 @@
    Ids are small naturals here; the implementation's u64 domain is reached
    through the order-preserving embeddings applied by the driver.
 
-   `Deviations` names what the code does today where that differs from the
-   intended design (see the comments at each use).                          *)
+   `Deviations` names what the code did before it was repaired, where that
+   differed from the intended design (see the comments at each use):
+     "MaskNeedsSorted"      mask() consumed positions in the order given
+                            (repaired by /repo c5a9910)
+     "DeleteDupStalls"      delete() stalled on a repeated id (53b3350)
+     "RechunkTrailingEmpty" rechunk_sequences took a left-over *empty* segment
+                            for left-over ids (1f4ed83)
+   With Deviations = {} (the default, and what the checks use) the model is
+   the intended design; TLC finds IterIsGhost / RechunkAgrees violated as soon
+   as one of them is switched on.                                           *)
 EXTENDS Naturals, Integers, Sequences, FiniteSets, TLC
 
 CONSTANTS Deviations,   \* subset of {"DeleteDupStalls", "MaskNeedsSorted", "RechunkTrailingEmpty"}
